@@ -269,6 +269,19 @@ def bkWrite (ns : Rat) (g : G) (final : Array Rat) : G :=
   let g := if lmargin < 0 then { g with nodes := g.nodes.map fun nd => { nd with x := nd.x - lmargin } } else g
   g.layers.toList.foldl (fun g l => (l.nodes.zip l.nodes.tail).foldl (bkPush ns) g) g
 
+/-- the layout that is written: a forced candidate, or the balanced one if it verifies, else the narrowest candidate that does -/
+def bkFinal (forced : Int) (ns : Rat) (g : G) (xcs : List (Array Rat)) : Array Rat :=
+  if 0 ≤ forced && forced < 4 then xcs.getD forced.toNat #[]
+  else
+    let bal := balanceLayouts g xcs
+    if verifyLayout g bal ns then bal
+    else
+      (xcs.foldl (fun (acc : Array Rat × Rat) xc =>
+        if verifyLayout g xc ns && (xcSize g xc).1 < acc.2 then (xc, (xcSize g xc).1) else acc) (bal, (xcSize g bal).1)).1
+
+/-- everything after the four compactions: selection / balancing, and writing -/
+def bkFinish (forced : Int) (ns : Rat) (g : G) (xcs : List (Array Rat)) : G := bkWrite ns g (bkFinal forced ns g xcs)
+
 /-- `execBrandesKoepf`; forced = params.BrandesKoepfLayout -/
 def execBrandesKoepf (forced : Int) (ns : Rat) (g : G) : M G := do
   let (nbUp, nbDown) := bkNeighbors g
@@ -278,15 +291,7 @@ def execBrandesKoepf (forced : Int) (ns : Rat) (g : G) : M G := do
     let c : BKCtx := { g, ns, vDown, hRight, marked, nbUp, nbDown }
     let a := verticalAlign c
     xcs := xcs ++ [← horizontalCompaction c a]
-  let final :=
-    if 0 ≤ forced && forced < 4 then xcs.getD forced.toNat #[]
-    else
-      let bal := balanceLayouts g xcs
-      if verifyLayout g bal ns then bal
-      else
-        (xcs.foldl (fun (acc : Array Rat × Rat) xc =>
-          if verifyLayout g xc ns && (xcSize g xc).1 < acc.2 then (xc, (xcSize g xc).1) else acc) (bal, (xcSize g bal).1)).1
-  pure (bkWrite ns g final)
+  pure (bkFinish forced ns g xcs)
 
 end BK
 end Autog
